@@ -269,6 +269,13 @@ func orbitLoop(f *ssa.Function, r, t ssa.Value) (string, bool) {
 				}
 			}
 			if okExit && okHit && eqRT {
+				// a verdict other than `true` is reached only through the end of
+				// the walk: a fast path that answers for some targets without
+				// walking (a table of "letters with no third orbit member",
+				// an ASCII shortcut) decides on its own which folds exist
+				if why := verdictsAfterWalk(f, h, body); why != "" {
+					return why, false
+				}
 				return "r == target, or r is met while walking SimpleFold from target back to target", true
 			}
 			if okExit && okHit && !eqRT {
@@ -277,6 +284,52 @@ func orbitLoop(f *ssa.Function, r, t ssa.Value) (string, bool) {
 		}
 	}
 	return "no SimpleFold loop that walks the orbit back to its start", false
+}
+
+// verdictsAfterWalk: every value f may return is the constant true, or the
+// constant false arriving from the exit of the orbit loop headed by h.
+func verdictsAfterWalk(f *ssa.Function, h *ssa.BasicBlock, body map[*ssa.BasicBlock]bool) string {
+	afterWalk := func(b *ssa.BasicBlock) bool {
+		// b is h itself (the exit edge leaves from the head) or lies behind it, outside the body
+		return b == h || (h.Dominates(b) && !body[b])
+	}
+	var bad string
+	var visit func(v ssa.Value, from *ssa.BasicBlock, depth int)
+	visit = func(v ssa.Value, from *ssa.BasicBlock, depth int) {
+		if bad != "" || depth > 8 {
+			return
+		}
+		if b, ok := core.ConstBool(v); ok {
+			if !b && !afterWalk(from) {
+				bad = "`false` is returned without the orbit of target having been walked"
+			}
+			return
+		}
+		if phi, ok := v.(*ssa.Phi); ok {
+			for i, e := range phi.Edges {
+				visit(e, phi.Block().Preds[i], depth+1)
+			}
+			return
+		}
+		if u, ok := v.(*ssa.UnOp); ok && u.Op == token.MUL {
+			// a named result: the values stored into its cell
+			if al, isAl := u.X.(*ssa.Alloc); isAl {
+				for _, r := range core.Refs(al) {
+					if st, isSt := r.(*ssa.Store); isSt && st.Addr == ssa.Value(al) {
+						visit(st.Val, st.Block(), depth+1)
+					}
+				}
+				return
+			}
+		}
+		bad = "a verdict computed without walking the orbit of target is returned: " + core.Describe(v)
+	}
+	for _, ret := range core.Returns(f) {
+		if len(ret.Results) == 1 {
+			visit(ret.Results[0], ret.Block(), 0)
+		}
+	}
+	return bad
 }
 
 // ---------------------------------------------------------------------------
